@@ -430,8 +430,10 @@ func (g *gen) opOut() {
 		g.emit("out del %s", o)
 	case c < 6:
 		g.emit("out corrupt %s size=%d", o, hx.Pick(g.r, []int64{0, 2, 85, 93, 173, 261, int64(g.r.Intn(400))}))
+	case c < 7:
+		g.emit("out chmod %s mode=%d", o, hx.Pick(g.r, []int64{0o600, 0o664, 0o444, 0o400, 0o755}))
 	case c < 8:
-		g.emit("out chmod %s mode=%d", o, hx.Pick(g.r, []int64{0o600, 0o664, 0o444, 0o755}))
+		g.emit("out link %s %s", o, hx.Pick(g.r, []string{"nowhere", "../gone/x.fileset"}))
 	case c < 10:
 		g.emit("out obstruct %s", o)
 		g.obstructed[o] = true
@@ -503,7 +505,33 @@ func (g *gen) scenario() int {
 		g.buildFull()
 	}
 	before := len(g.ops)
-	switch g.r.Intn(5) {
+	switch g.r.Intn(7) {
+	case 5: // the records outlive the expiry: everything is rebuilt once, and then nothing
+		g.emit("cache age")
+		g.buildFull()
+		g.buildFull()
+		g.rep.Count("gen:scenario-cache-aged")
+	case 6: // an output path is occupied (read-only file, dangling symlink, directory), a build, the
+		// obstruction goes away, a build
+		if outs := g.fsOuts(g.rules); len(outs) > 0 {
+			o := hx.Pick(g.r, outs)
+			switch g.r.Intn(3) {
+			case 0:
+				g.emit("out chmod %s mode=%d", o, 0o400)
+				g.buildFull()
+			case 1:
+				g.emit("out link %s nowhere", o)
+				g.buildFull()
+				g.emit("out del %s", o)
+			default:
+				g.emit("out obstruct %s", o)
+				g.buildFull()
+				g.emit("out restore %s", o)
+				g.emit("out del %s", o)
+			}
+			g.buildFull()
+			g.rep.Count("gen:scenario-occupied-output")
+		}
 	case 4: // AlwaysRebuild build (possibly after an edit), then ordinary builds
 		if n, ok := g.pickRegular(); ok && g.r.Bool() {
 			st := g.src[n]
@@ -611,7 +639,7 @@ func (g *gen) history(maxOps int) []string {
 	}
 	n := 3 + g.r.Intn(maxOps-2)
 	scenarioAt := -1
-	if g.r.Intn(5) < 2 {
+	if g.r.Bool() {
 		scenarioAt = g.r.Intn(n)
 	}
 	for i := 0; i < n; i++ {
@@ -631,6 +659,9 @@ func (g *gen) history(maxOps int) []string {
 			g.opRules()
 		case c < 18:
 			g.opOut()
+		case c < 19 && g.r.Intn(4) == 0:
+			g.emit("cache age")
+			g.rep.Count("gen:cache-age")
 		default:
 			g.opBuild()
 		}
